@@ -80,6 +80,16 @@ ReopenCore == /\ ~open /\ sess < MaxSess /\ open' = TRUE /\ seen' = {} /\ count'
               /\ UNCHANGED <<cols, rows, batch, nw, bounds>>
 ReopenVis == UNCHANGED <<ccols, crows>>
 Reopen == ReopenCore /\ ReopenVis
+\* a record SQLite REFUSES (an integer beyond 64 bits ...): write() raises, the record is not stored -- and nothing that was
+\* accepted before it is touched.  If it was the first record of its descriptor, the table work (and its commit) has
+\* happened by then.
+FailedWriteCore(d) == /\ open /\ nw < MaxOps
+                      /\ cols' = NewCols(d) /\ seen' = seen \cup {d}
+                      /\ bounds' = bounds \cup (IF d \notin seen THEN {nw} ELSE {})
+                      /\ UNCHANGED <<rows, count, nw, batch, open, sess>>
+FailedWriteVis(d) == IF d \notin seen /\ "NoDescriptorCommit" \notin Dev THEN ccols' = NewCols(d) /\ crows' = rows
+                     ELSE UNCHANGED <<ccols, crows>>
+FailedWrite(d) == FailedWriteCore(d) /\ FailedWriteVis(d)
 \* n records of one type in a row (trace validation of long runs; the composition of n Write(d) steps)
 WriteManyCore(d, n) ==
     /\ open /\ n >= 1
@@ -102,7 +112,7 @@ Crash == CrashVis /\ CrashCore
 Write(d) == WriteCore(d) /\ WriteVis(d)
 Flush == FlushCore /\ FlushVis
 Close == CloseCore /\ CloseVis
-Next == (\E d \in Descs : Write(d)) \/ Flush \/ Close \/ Reopen \/ Crash
+Next == (\E d \in Descs : Write(d)) \/ FailedWrite("A") \/ Flush \/ Close \/ Reopen \/ Crash
 Spec == Init /\ [][Next]_vars
 
 \* ---------------- C18 ----------------
